@@ -306,6 +306,38 @@ def run(ctx: Ctx) -> int:
                           f"exact value has {max(abs(v) for v in exact).bit_length()} bits",
                           {"op": "prod-default", "factors": [list(c) for c in l], "impl": [list(got[0]), got[1]]})
             break
+    # sums of products, the shape evaluate() uses: (terms, factors, 4) -> prod over the factors -> sum over the terms, with a vanishing
+    # term next to terms that carry a large power of two (a zero must not drag the alignment of the sum)
+    sp_cases = [[[(2, 0, 0, 0)] * 40, [(2, 0, 0, 0)] * 20 + [(0, 0, 0, 0)] + [(2, 0, 0, 0)] * 19],
+                [[(1, 0, 1, 0)] * 70, [(0, 0, 0, 0)] + [(1, 0, 1, 0)] * 69, [(1, 0, -1, 0)] * 70],
+                [[(2, 0, 0, 0)] * 33 + [(0, 1, 0, 0)], [(2, 0, 0, 0)] * 33 + [(1, 0, 0, 0)], [(2, 0, 0, 0)] * 16 + [(0, 0, 0, 0)] + [(2, 0, 0, 0)] * 17]]
+    # (a vanishing term is modelled as the pipeline produces it: the same factor structure as its siblings with ONE factor equal to 0; a
+    #  term made of zeros only would sit at power 0 next to siblings at 2^33 and wrap the aligned sum, but no circuit produces such a term)
+    for _ in range(6 if quick else 60):
+        nf_ = int(rng.integers(30, 46))
+        terms = []
+        for _t in range(int(rng.integers(2, 5))):
+            fac = [[(2, 0, 0, 0), (1, 0, 1, 0), (0, 0, 1, 0), (1, 0, -1, 0), (0, 1, 0, 0)][int(rng.integers(0, 5))] for _f in range(nf_)]
+            if rng.random() < 0.4:
+                fac[int(rng.integers(0, nf_))] = (0, 0, 0, 0)
+            terms.append(fac)
+        sp_cases.append(terms)
+    for terms in sp_cases:
+        arr = ExactScalarArray(jnp.array(terms, dtype=jnp.int32))
+        tot = arr.prod(axis=1).sum()
+        got = (tuple(int(v) for v in np.asarray(tot.coeffs)), int(tot.power))
+        exact = (0, 0, 0, 0)
+        for fac in terms:
+            pr_ = (1, 0, 0, 0)
+            for c in fac:
+                pr_ = mul_ref(pr_, c)
+            exact = tuple(a + b_ for a, b_ in zip(exact, pr_))
+        ctx.count(("sum-of-prods", json.dumps(terms)), nontrivial=True, bucket="sum-of-prods")
+        if not _same_value(got, (exact, 0)):
+            ctx.violation("sum-of-prods", f"sum over {len(terms)} terms of products of {len(terms[0])} stabilizer-type factors = {list(got[0])}*2^{got[1]}, "
+                          f"exact value {[int(v) for v in exact]}",
+                          {"op": "sum-of-prods", "terms": [[list(c) for c in fac] for fac in terms], "impl": [list(got[0]), got[1]]})
+            break
     ctx.sample({"op": "prod", "n_factors": len(prod_cases[5]), "first": prod_cases[5][:3], "impl": prod_impl[5]})
     # a silent wrap outside the guard is the unguarded clause of the property failing
     for l, got, exact in wrapped_inputs:
@@ -394,6 +426,18 @@ def replay(ctx: Ctx, obj) -> int:
             exact = mul_ref(exact, c)
         print("impl now:", got, "exact:", exact, sum(p for _, p in l))
         return 0 if _same_value(got, (exact, sum(p for _, p in l))) else 1
+    if r.get("op") == "sum-of-prods":
+        terms = [[tuple(c) for c in fac] for fac in r["terms"]]
+        tot = ExactScalarArray(jnp.array(terms, dtype=jnp.int32)).prod(axis=1).sum()
+        got = (tuple(int(v) for v in np.asarray(tot.coeffs)), int(tot.power))
+        exact = (0, 0, 0, 0)
+        for fac in terms:
+            pr_ = (1, 0, 0, 0)
+            for c in fac:
+                pr_ = mul_ref(pr_, c)
+            exact = tuple(a + b_ for a, b_ in zip(exact, pr_))
+        print("impl now:", got)
+        return 0 if _same_value(got, (exact, 0)) else 1
     if r.get("op") == "prod-default":
         l = [tuple(c) for c in r["factors"]]
         pr = ExactScalarArray(jnp.array(l, dtype=jnp.int32).reshape(len(l), 4)).prod(axis=0)
